@@ -87,7 +87,7 @@ impl Expr {
                 }
                 ExprNode::Neg => {
                     let value = stack.pop().unwrap();
-                    stack.push(-value);
+                    stack.push(value.wrapping_neg());
                 }
                 ExprNode::Lo => {
                     let value = stack.pop().unwrap();
